@@ -114,6 +114,31 @@ impl<'a> G<'a> {
                 out.push(put(num(0.0), &c));
                 let is_while = k % 2 == 0;
                 self.skeleton.push(if is_while { 'w' } else { 'u' });
+                if self.rng.chance(1, 6) {
+                    // the condition has an effect of its own: `while roll Queue` - every evaluation removes an
+                    // element, so the queue printed afterwards tells how often the condition was evaluated
+                    // (once per iteration and once more at the normal end, not again after a break). The body
+                    // may be empty.
+                    self.skeleton.push('q');
+                    let q = Name::Simple(format!("Queue{}", counter_name(self.next_counter).text()));
+                    self.next_counter += 1;
+                    let k = self.rng.range(0, 3);
+                    let mut vals: Vec<Expr> = Vec::new();
+                    for _ in 0..k {
+                        vals.push(if is_while { num(self.rng.range(1, 9) as f64) } else { num(0.0) });
+                    }
+                    vals.push(if is_while { num(0.0) } else { num(7.0) });
+                    for _ in 0..self.rng.range(1, 3) {
+                        vals.push(num(self.rng.range(1, 9) as f64));
+                    }
+                    out.push(put(Expr::Prim(Prim::Lit(Lit::Mysterious)), &q));
+                    out.push(Stmt::Push { array: pvar(&q), value: Some(PushRhs::List(vals)) });
+                    let cond = Expr::Prim(Prim::Pop(Box::new(pvar(&q))));
+                    let body = if self.rng.chance(1, 3) { Vec::new() } else { self.block(depth - 1, true) };
+                    out.push(if is_while { Stmt::While { cond, body } } else { Stmt::Until { cond, body } });
+                    out.push(say(var(&q)));
+                    return;
+                }
                 if self.rng.chance(1, 4) {
                     // the condition IS a value of any kind (an empty array is as true as a full one); the
                     // loop is bounded by a guard at the top of its body
